@@ -77,7 +77,7 @@ def shower_job(job):
     from nuspacesim.simulation.eas_radio.radio import EASRadio
     from nuspacesim.simulation.eas_radio.radio_antenna import calculate_snr
     rng = np.random.default_rng(job["seed"])
-    cfg, (beta, alt, ln, theta, path, Esh) = shower_inputs(job["spec"], job["seed"], job["n"] if not job.get("exact") else 40 * job["n"])
+    cfg, (beta, alt, ln, theta, path, Esh) = shower_inputs(job["spec"], job["seed"], job["n"] if not job.get("exact") else (40 if job["n"] < 1000 else 3) * job["n"])
     if job.get("exact"):
         # exactly this many events in the batch
         beta, alt, ln, theta, path, Esh = (x[: job["n"]].copy() for x in (beta, alt, ln, theta, path, Esh))
@@ -140,9 +140,20 @@ def shower_job(job):
         sp_ = np.asarray(calculate_snr(efp, band, h, N, gain), dtype=float)
         sperm = np.empty_like(sp_)
         sperm[order] = sp_
-        salone = np.array([float(np.asarray(calculate_snr(ef1[i:i + 1], band, h, N, gain), dtype=float).reshape(-1)[0]) for i in range(n)])
+        # (a LARGE batch - more events than any internal block size, not a multiple of it - is judged on a sample of its events: both ends,
+        # around every multiple of 4096, random ones)
+        if n > 5000:
+            judged = set(range(16)) | set(range(n - 12, n)) | set(int(i) for i in rng.integers(0, n, 60))
+            for kk in range(4096, n, 4096):
+                judged |= {kk - 1, kk}
+            judged = sorted(judged)
+        else:
+            judged = list(range(n))
+        salone = np.full(n, np.nan)
+        for i in judged:
+            salone[i] = float(np.asarray(calculate_snr(ef1[i:i + 1], band, h, N, gain), dtype=float).reshape(-1)[0])
     ev = []
-    for i in range(n):
+    for i in judged:
         ev.append({"kind": "shower", "alt": bits(alt[i]), "lenDec": bits(ln[i]), "ef1": bits_array(ef1[i]), "ef3": bits_array(ef3[i]),
                    "snr1": bits(s1[i]), "snr3": bits(s3[i]), "snrN1": bits(sN1[i]), "snrN4": bits(sN4[i]), "snrPerm": bits(sperm[i]), "snrAlone": bits(salone[i]), "perm": bits_array(back[i]),
                    "_m": {"spec": job["spec"], "alt": float(alt[i]), "lenDec": float(ln[i]), "lenDec_is_zero": bool(ln[i] == 0.0), "snr": float(s1[i]),
@@ -249,6 +260,8 @@ def run(tier="quick", seed=0):
     # batches with as many events as the band has 10 MHz bins (a SQUARE field array), one fewer and one more
     for nb in (26, 27, 28):
         jobs.append({"t": "shower", "spec": specs[1], "seed": seed * 10 + 90 + nb, "n": nb, "c": 0.63, "exact": True})
+    # ONE batch with more events than any internal block size (2**16), not a multiple of it
+    jobs.append({"t": "shower", "spec": specs[1], "seed": seed * 10 + 95, "n": 70001, "c": 0.29, "exact": True})
     jobs.append({"t": "scale", "spec": {"altitude": 33.0, "limb": 0.05, "log_e": 10.0}, "seed": seed + 7, "n": 200, "c": 0.37, "ncases": 240 if thorough else 60})
     res = par.pmap(_dispatch, jobs, workers=14)
     ev = [e for r in res for e in r]
